@@ -73,6 +73,18 @@ def unmarshalBytes : Dec Bytes := fun buf =>
 
 abbrev unmarshalString : Dec Bytes := unmarshalBytes
 
+/-- `api/rpc/encoder.go: unmarshalString` (commit dbbc1a7): before calling the library the length varint is compared with the
+bytes left, `uln > uint(len(buf)-idx) ⇒ error`. `guard` is the regenerated fact `Generated.C13.rpcStringLengthGuard` (the
+wrapper exists, has that test, and no api/rpc decoder calls the library directly); with `false` this is the code before
+the commit. (`len(buf)-idx ≥ 0` because the varint reader consumed `idx ≤ len(buf)` bytes, so the `uint` conversion is exact.) -/
+def rpcStringG (guard : Bool) : Dec Bytes := fun buf =>
+  match unmarshalUint buf with
+  | .ok (idx, uln) => if guard = true ∧ buf.length - idx < uln then .err else unmarshalString buf
+  | _ => unmarshalString buf
+
+/-- the string decoder of the api/rpc decoders as `/repo` has it now -/
+abbrev rpcString : Dec Bytes := rpcStringG Generated.C13.rpcStringLengthGuard
+
 /-- `n, x, err := d(buf[nn:]); nn += n; if err != nil { return }; k nn x` -/
 def Dec.next (nn : Nat) (buf : Bytes) (d : Dec α) (k : Nat → α → Outcome β) : Outcome β :=
   (Go.sliceFrom buf nn).bind fun b => (d b).bind fun p => k (nn + p.1) p.2
@@ -106,9 +118,9 @@ structure ApiEvent where
 
 def unmarshalLogEvent : Dec ApiEvent := fun buf =>
   Dec.next 0 buf unmarshalUint64 fun nn ts =>
-  Dec.next nn buf unmarshalString fun nn msg =>
-  Dec.next nn buf unmarshalString fun nn tags =>
-  Dec.next nn buf unmarshalString fun nn flds => .ok (nn, ⟨ts, msg, tags, flds⟩)
+  Dec.next nn buf rpcString fun nn msg =>
+  Dec.next nn buf rpcString fun nn tags =>
+  Dec.next nn buf rpcString fun nn flds => .ok (nn, ⟨ts, msg, tags, flds⟩)
 
 structure QueryRequest where
   reqId : Nat
@@ -123,8 +135,8 @@ def toInt32 (u : Nat) : Int := if u < 2147483648 then u else (u : Int) - 4294967
 
 def unmarshalQueryRequest : Dec QueryRequest := fun buf =>
   Dec.next 0 buf unmarshalUint64 fun nn id =>
-  Dec.next nn buf unmarshalString fun nn q =>
-  Dec.next nn buf unmarshalString fun nn p =>
+  Dec.next nn buf rpcString fun nn q =>
+  Dec.next nn buf rpcString fun nn p =>
   Dec.next nn buf unmarshalUint16 fun nn wt =>
   Dec.next nn buf unmarshalUint32 fun nn off =>
   Dec.next nn buf unmarshalUint32 fun nn lim => .ok (nn, ⟨id, q, p, wt, toInt32 off, lim⟩)
@@ -156,8 +168,8 @@ structure WpIter where
 
 /-- `wpIterator.init`; `kv` is `field.NewFieldsFromKVString` -/
 def wpInit (kv : Bytes → Option Bytes) (buf : Bytes) : Outcome WpIter :=
-  Dec.next 0 buf unmarshalString fun idx tags =>
-  Dec.next idx buf unmarshalString fun idx flds =>
+  Dec.next 0 buf rpcString fun idx tags =>
+  Dec.next idx buf rpcString fun idx flds =>
   Dec.next idx buf unmarshalUint32 fun pos ln =>
     match kv flds with
     | none => .err
@@ -227,7 +239,11 @@ def wpEncode (tags flds : Bytes) (evs : List ApiEvent) : Bytes :=
 def writeQueryResult (evs : List ApiEvent) (q : QueryRequest) : Bytes :=
   toBE 4 (evs.length % 4294967296) ++ evs.flatMap writeLogEvent ++ writeQueryRequest q
 
-/-! ## the class of finding F13 -/
+/-! ## the class of (fixed) finding F13: what still makes the *library* function panic -/
+
+/-- the length of a Go slice is an `int` -/
+def IsGoSlice (buf : Bytes) : Prop := buf.length < 9223372036854775808
+
 
 /-- no varint that starts at the beginning of `b` decodes to a value `≥ 2⁶³ − (its own size)` -/
 def SafeAt (b : Bytes) : Prop := ∀ idx v, unmarshalUint b = .ok (idx, v) → v + idx < 9223372036854775808
